@@ -148,6 +148,8 @@ func (r *Replayer) RunFile(p string) ReplayOutcome {
 		case l == "ZZ-COVERS":
 		case l == "ZZ-DONE":
 			o.Done = true
+		case strings.HasPrefix(l, "ZZ-NOTE"):
+			o.Tail += l + "; "
 		case strings.HasPrefix(l, "ZZ-REPLAY-ERROR"), strings.HasPrefix(l, "panic:"), strings.HasPrefix(l, "fatal error"):
 			o.Tail += l + "; "
 		}
@@ -320,7 +322,7 @@ func cmdReplay(path string) int {
 		}
 		defer rp.Close()
 		out := rp.Run(c.Values)
-		fmt.Printf("replay of %s/%s (%s %s): panic=%v %q assert-fails=%v covers=%v unrealisable=%v\n", c.Property, c.Harness, c.Kind, c.Site, out.Panic, out.PanicMsg, out.AssertFails, out.Covers, out.Unrealisable)
+		fmt.Printf("replay of %s/%s (%s %s): panic=%v %q assert-fails=%v covers=%v unrealisable=%v %s\n", c.Property, c.Harness, c.Kind, c.Site, out.Panic, out.PanicMsg, out.AssertFails, out.Covers, out.Unrealisable, out.Tail)
 		if (c.Kind == "panic" && out.Panic) || (c.Kind == "assert" && contains(out.AssertFails, c.Label)) {
 			fmt.Printf("VIOLATION property=%s replay=%s (reproduced natively)\n", c.Property, path)
 			return 1
